@@ -90,7 +90,7 @@ class Policy:
     def get_policy(self, sec, ptype):
         """gets all rules in a policy."""
 
-        return self[sec][ptype].policy
+        return list(self[sec][ptype].policy)
 
     def get_filtered_policy(self, sec, ptype, field_index, *field_values):
         """gets rules based on field filters from a policy."""
